@@ -640,6 +640,7 @@ fn matches_case(w: &[&str]) -> String {
                 "s" => {
                     let (h, r) = rest.split_once('=')?;
                     let h: u32 = h.parse().ok()?;
+                    let r = r.split('~').next()?; // `~<hex>` = the canonical form, for the model only
                     let (r, mq) = match r.split_once(':') {
                         Some((r, k)) => (r, Some(k.parse::<usize>().ok()?)),
                         None => (r, None),
